@@ -58,6 +58,19 @@ func init() {
 				}
 			}()
 			row["ops"] = int64(vm.NumOpCount)
+			// generator draws of this run (the VM starts from state (5,6)): step a copy until it reaches the VM's final state
+			row["draws"] = -1
+			if vm.RandSrc != nil {
+				fh, fl := srcState(vm.RandSrc)
+				cp := mkSrc(5, 6)
+				for k := 0; k <= 400000; k++ {
+					if h, l := srcState(cp); h == fh && l == fl {
+						row["draws"] = k
+						break
+					}
+					cp.Uint64()
+				}
+			}
 			row["ms"] = time.Since(t0).Milliseconds()
 			row["ncode"] = len(vm.VerifCode())
 			emit(row)
